@@ -300,8 +300,8 @@ theorem Node.reportRandomize_res : (n : Node) → (w : World U) → (n.reportRan
       have hs := World.resolveRandom_some _ _ _ _ _ _ _ hj
       rw [hj]
       simp only
-      have h2 : (s.reportRandomizeTop (s.reportRankAll (w.headUtility id inj hd).1).2
-          (topRank (s.reportRankAll (w.headUtility id inj hd).1).2) (s.reportRankAll (w.headUtility id inj hd).1).1).2.1.err = none := by
+      have h2 : (s.reportRandomizeTop (s.reportRankAll (w.headUtilityWrap id inj hd).1).2
+          (topRank (s.reportRankAll (w.headUtilityWrap id inj hd).1).2) (s.reportRankAll (w.headUtilityWrap id inj hd).1).1).2.1.err = none := by
         err_back h
       obtain ⟨htop, hlen⟩ := ih3 _ _ _ h2
       exact htop j hs.2 (by rw [← hlen]; exact hs.1)
@@ -309,7 +309,7 @@ theorem Node.reportRandomize_res : (n : Node) → (w : World U) → (n.reportRan
       have ih2 := Subs.reportRandomizeAll_res s
       simp only [Node.reportRandomize, Node.Res]
       intro h
-      have h2 : (s.reportRandomizeAll (w.headUtility id inj hd).1).2.1.err = none := by err_back h
+      have h2 : (s.reportRandomizeAll (w.headUtilityWrap id inj hd).1).2.1.err = none := by err_back h
       exact ih2 _ h2
 theorem Subs.reportRandomizeAll_res : (s : Subs) → (w : World U) →
     (s.reportRandomizeAll w).2.1.err = none → (s.reportRandomizeAll w).1.ResAll
